@@ -564,6 +564,8 @@ class Interp:
             return [5, c[1], 1]
         if c[0] == 'inv' and c[1][0] == 'flag':
             return [6, c[1][1], 1]
+        if c[0] in ('any', 'all') and len(c) == 3 and c[1][0] == 'flag' and c[2][0] == 'flag':
+            return [7 if c[0] == 'any' else 8, c[1][1], c[2][1]]
         return [9, 0, 1]
 
     def not_done(self, inst):
